@@ -68,6 +68,17 @@ class LtlPastifier(LtlAstVisitor):
         self.ast.phi_name_to_node_dict.update({key: target for key in keys})
         return out
 
+    def started_late(self, node, operand_horizon):
+        # A past operator whose operand looks ahead is fed the pastified operand, which only carries values of
+        # the original operand from the update that closes the operand's horizon: the monitor starts the
+        # operation at that update (number of samples to wait, read by the discrete-time online monitor).
+        if operand_horizon > 0:
+            node.started_late = int(operand_horizon / (self.sample or 1))
+            # (online operations are shared between nodes of the same printed name: this one is not the same
+            # operation as an equally printed operator over an operand without look-ahead)
+            node.name = '{}@{}'.format(node.name, node.started_late)
+        return node
+
     def visitConstant(self, node, *args, **kwargs):
         node = Constant(node.val)
         return node
@@ -211,7 +222,7 @@ class LtlPastifier(LtlAstVisitor):
         remaining_horizon = args[0]
         horizon = remaining_horizon - node_horizon
         child_node = self.visit(node.children[0], node_horizon)
-        node = Rise(child_node)
+        node = self.started_late(Rise(child_node), node_horizon)
         for i in range(horizon):
             node = Previous(node)
         return node
@@ -221,7 +232,7 @@ class LtlPastifier(LtlAstVisitor):
         remaining_horizon = args[0]
         horizon = remaining_horizon - node_horizon
         child_node = self.visit(node.children[0], node_horizon)
-        node = Fall(child_node)
+        node = self.started_late(Fall(child_node), node_horizon)
         for i in range(horizon):
             node = Previous(node)
         return node
@@ -305,7 +316,7 @@ class LtlPastifier(LtlAstVisitor):
         remaining_horizon = args[0]
         horizon = remaining_horizon - node_horizon
         child_node = self.visit(node.children[0], node_horizon)
-        node = Once(child_node)
+        node = self.started_late(Once(child_node), node_horizon)
         for i in range(horizon):
             node = Previous(node)
         return node
@@ -315,7 +326,7 @@ class LtlPastifier(LtlAstVisitor):
         remaining_horizon = args[0]
         horizon = remaining_horizon - node_horizon
         child_node = self.visit(node.children[0], node_horizon)
-        node = Previous(child_node)
+        node = self.started_late(Previous(child_node), node_horizon)
         for i in range(horizon):
             node = Previous(node)
         return node
@@ -325,7 +336,7 @@ class LtlPastifier(LtlAstVisitor):
         remaining_horizon = args[0]
         horizon = remaining_horizon - node_horizon
         child_node = self.visit(node.children[0], node_horizon)
-        node = StrongPrevious(child_node)
+        node = self.started_late(StrongPrevious(child_node), node_horizon)
         for i in range(horizon):
             node = Previous(node)
         return node
@@ -345,7 +356,7 @@ class LtlPastifier(LtlAstVisitor):
         remaining_horizon = args[0]
         horizon = remaining_horizon - node_horizon
         child_node = self.visit(node.children[0], node_horizon)
-        node = Historically(child_node)
+        node = self.started_late(Historically(child_node), node_horizon)
         for i in range(horizon):
             node = Previous(node)
         return node
@@ -356,7 +367,7 @@ class LtlPastifier(LtlAstVisitor):
         horizon = remaining_horizon - node_horizon
         child_node_1 = self.visit(node.children[0], node_horizon)
         child_node_2 = self.visit(node.children[1], node_horizon)
-        node = Since(child_node_1, child_node_2)
+        node = self.started_late(Since(child_node_1, child_node_2), node_horizon)
         for i in range(horizon):
             node = Previous(node)
         return node
